@@ -50,7 +50,7 @@ func checkBoot(c *core.Ctx, rule string) {
 			}
 			for gi, g := range gates {
 				gkey := fmt.Sprintf("%s/guard#%d", key, gi+1)
-				if f := nilFieldTest(g); f != "" && writesField(initState, bt, f) {
+				if f := nilFieldTest(g); f != "" && groupWritesField(c, initState, bt, f) {
 					c.OK(rule, gkey, g.If.Cond.Pos(), "lazy rebuild: initState runs when Blockchain."+f+", which it assigns, is still nil")
 					continue
 				}
@@ -293,6 +293,19 @@ func writesField(fn *ssa.Function, t *types.Named, f string) bool {
 			if k, ok := st.Val.(*ssa.Const); ok && k.IsNil() {
 				continue
 			}
+			return true
+		}
+	}
+	return false
+}
+
+// groupWritesField: fn or a helper only it calls stores a non-nil value into field f of type t.
+func groupWritesField(c *core.Ctx, fn *ssa.Function, t *types.Named, f string) bool {
+	if writesField(fn, t, f) {
+		return true
+	}
+	for _, h := range c.Helpers(fn) {
+		if writesField(h, t, f) {
 			return true
 		}
 	}
